@@ -8,7 +8,11 @@ warning flag, error kind; scipy's `shortest_path` / `connected_components` are c
 exercised by that exact comparison on every case.
 [T]: the laws of the statement evaluated on the real code (formats agree, relabelling, symmetric zero-diagonal
 collections whose entries are the pair results under the same RNG state, lower bounds identical across formats,
-brackets valid against an exhaustive mGH oracle for <= 6 vertices, disconnected graphs warn and do not raise).
+brackets valid against an exhaustive mGH oracle for <= 6 vertices, disconnected graphs warn and do not raise;
+relabelled disconnected graphs give the relabelled block of the / a largest component; pairs of 128/129-vertex paths,
+stars and cycles through the public entry point; one case showing scipy's dense-reader tolerance / stored zeros).
+With a TIE between largest components the statement leaves the choice open: every tied component's block is accepted
+for the property verdict, a tie-break other than the model's (first vertex) is only a correspondence break.
 """
 import itertools, math, warnings
 from collections import deque
@@ -25,14 +29,17 @@ RULE = ("graphs generated from one PRNG: paths, cycles, stars, complete graphs, 
         "is submitted in several representations: orientation upper/symmetric/lower/mixed, weights 1 / integers / "
         "non-integer floats, optional self-loops, container list/tuple/ndarray int,bool,float/np.matrix/CSR/CSC/COO/"
         "LIL/DOK/BSR/DIA/csr_array/coo_array, identity or random relabelling; a malformed stream (empty, ragged, non-square); pairs and "
-        "collections of 2-6 graphs in mixed formats. non-trivial = a graph with >= 3 vertices and >= 1 edge; distinct "
+        "collections of 2-6 graphs in mixed formats; four pairs of 128/129-vertex paths/stars/cycles (isomorphic relabelled "
+        "pairs and non-isomorphic ones) through the public gromov_hausdorff with mapping_sample_size_order [0,0] or [.25,0]. non-trivial = a graph with >= 3 vertices and >= 1 edge; distinct "
         "by digest of (operation, container, entries)")
 ASSUMPTIONS = [
     "scipy.sparse.csgraph.shortest_path(directed=False, unweighted=True) returns BFS distances of the undirected graph "
     "'entry non-zero in either direction' and connected_components labels components in order of their first vertex "
     "(contracts of the model; both compared exactly with the model on every case)",
     "adjacency entries are finite and non-negative, non-zero ones larger than 1e-8 in magnitude; a sparse input stores no "
-    "explicit zeros (scipy counts a stored 0 as an edge, a dense NaN/inf/|x|<=1e-8 as no edge) - such inputs are outside the model",
+    "explicit zeros (scipy counts a stored 0 as an edge, a dense NaN/inf/|x|<=1e-8 as no edge) - such inputs are outside the model. "
+    "This includes BSR matrices with blocks larger than 1x1 that contain zeros (scipy's automatic block size for dense-ish "
+    "matrices): the generator builds BSR inputs with 1x1 blocks",
     "`estimate` (find_lb/find_ub) is a parameter of the dispatch model; its soundness is property C05. The harness "
     "records its calls inside the real run and replays them into the model",
     "np.unique/np.argmax/boolean-mask indexing/astype behave as modelled (first maximum, increasing labels); compared on "
@@ -41,6 +48,14 @@ ASSUMPTIONS = [
 TRUSTED = ["scipy.sparse.csgraph.shortest_path / connected_components: BFS-distance and first-vertex-labelling contracts, "
            "exercised by exact comparison with the Lean model on every generated graph"]
 WARN_TEXT = "disconnected graph is approximated by its largest connected component"
+# theorems that carry a clause of the statement (helper steps, contracts of the labelling, concrete instances such as
+# old_fallback_not_square / tie_relabel_selects_other_component / int_type_thresholds are not in this list)
+CORE_THEOREMS = ["format_irrelevant", "upper_eq_symmetric", "upper_same_result", "weights_irrelevant", "diagonal_irrelevant",
+                 "strict_upper_same_result", "bfs_is_shortest_path", "relabel_equivariant", "relabel_connected",
+                 "relabel_unique_largest", "fallback_is_metric", "never_raises", "connected_no_fallback",
+                 "largest_is_first_maximum", "int_type_sufficient", "int_type_sufficient_pair",
+                 "collection_symmetric_zero_diag", "collection_entries_are_pair_results", "lb_deterministic",
+                 "collection_format_irrelevant", "pair_format_irrelevant", "mGH_relabel_invariant"]
 
 
 # ----------------------------------------------------------------------------- independent oracle (plain Python)
@@ -77,6 +92,15 @@ def o_components(D):
             seen.update(c)
             comps.append(c)
     return comps
+
+
+def o_spaces(E):
+    """the distance matrices of ALL largest components (the statement says "its largest connected component": with a tie
+    every one of them is a legitimate answer), in order of their smallest vertex"""
+    D = o_bfs(E)
+    comps = o_components(D)
+    best = max(len(c) for c in comps)
+    return [[[D[i][j] for j in c] for i in c] for c in comps if len(c) == best]
 
 
 def o_space(E):
@@ -299,7 +323,10 @@ def pack(E, container):
     if container == "dok":
         return sps.dok_matrix(a)
     if container == "bsr":
-        return sps.bsr_matrix(a)
+        # 1x1 blocks: scipy's automatic block size (2x2 or larger when the blocks are > 70% full) stores the zeros INSIDE
+        # a block explicitly, `tocsr()` keeps them and csgraph counts every stored entry as an edge - such an object is
+        # outside the model's input assumption (see ASSUMPTIONS and stream_limits, which shows the effect on the real code)
+        return sps.bsr_matrix(a, blocksize=(1, 1))
     if container == "dia":
         return sps.dia_matrix(a)
     if container == "csr_array":
@@ -418,15 +445,35 @@ def dist_property(E, code):
         return "returned a matrix that is not a metric (shape %s)" % shape
     if disc != warned:
         return "warning flag %s for a %s graph" % (warned, "disconnected" if disc else "connected")
-    if D != space:
+    if D != space and D not in o_spaces(E):
+        # a different one of several equally large components is NOT a violation (the statement leaves the tie open;
+        # only the model's tie-break, first vertex, is a correspondence matter)
         n = len(E)
         sizes = sorted(len(c) for c in o_components(o_bfs(E)))
         if len(D) < max(sizes):
             return "kept %d vertices although the largest component has %d" % (len(D), max(sizes))
-        return "distance matrix is not that of the (first) largest connected component"
+        return "distance matrix is not that of a largest connected component"
     if bits not in (8, 16, 32, 64) or max(max(r) for r in D) > 2 ** (bits - 1) - 1:
         return "dtype (%s bits) cannot hold the largest distance" % bits
     return None
+
+
+def relabelled_block_ok(U, p, cm):
+    """U: the graph, p: the relabelling (A'[a][b] = A[p[a]][p[b]]), cm: canonical result for the relabelled graph.
+    The expected block: for a largest component C of U, the new labels a with p[a] in C, increasing, with the
+    distances of U between the p[a].  Returns (ok, unique-largest?)"""
+    D = o_bfs(U)
+    comps = o_components(D)
+    best = max(len(c) for c in comps)
+    largest = [c for c in comps if len(c) == best]
+    if isinstance(cm, str):
+        return False, len(largest) == 1
+    want = []
+    for C in largest:
+        cs = set(C)
+        keep = [a for a in range(len(p)) if p[a] in cs]
+        want.append([[D[p[a]][p[b]] for b in keep] for a in keep])
+    return cm[0] in want and cm[1] is True, len(largest) == 1
 
 
 def well_formed(E):
@@ -576,6 +623,17 @@ def stream_dist(ctx):
                 ctx.violation("distance matrix of a relabelled connected graph is not the relabelled distance matrix",
                               {"op": "dist", "container": meta["container"], "entries": E, "perm": p, "other_entries": U},
                               law="relabel")
+        elif key in base and not isinstance(base[key], str) and base[key][1]:
+            # disconnected: with a UNIQUE largest component the relabelled graph must give the relabelled block
+            # (theorem relabel_unique_largest); with a tie any of the tied components' blocks is acceptable
+            p = meta["perm"]
+            ok, unique = relabelled_block_ok(U, p, cm)
+            ctx.test("relabel_equivariant_disconnected_unique" if unique else "relabel_disconnected_tie_some_largest", ok)
+            if not ok:
+                ctx.violation("distance matrix of a relabelled disconnected graph is not the relabelled block of %s largest component"
+                              % ("its" if unique else "a"),
+                              {"op": "dist", "container": meta["container"], "entries": E, "perm": p, "other_entries": U},
+                              law="relabel")
         # [T] the oracle itself agrees (keeps the failing-input search honest)
         if len(E) <= 12:
             why = dist_property(E, code)
@@ -626,6 +684,87 @@ def stream_inttype(ctx):
                 return
 
 
+def stream_limits(ctx):
+    """[T] a DOCUMENTED LIMIT of the model, shown on the real code: scipy's dense reader treats |x| <= 1e-8, NaN and inf as
+    "no edge" while a sparse matrix counts every STORED entry (even an explicit 0) as an edge.  The model's input is the
+    matrix of entries with `non-zero = edge`; such inputs are outside it (ASSUMPTIONS) and the two containers of the same
+    numbers legitimately differ.  Nothing here is a violation; a change of scipy's behaviour is only counted."""
+    n = 2
+    tiny_dense = np.array([[0, 1e-9], [0, 0]])
+    tiny_csr = sps.csr_matrix(tiny_dense)
+    stored0 = sps.csr_matrix((np.array([0.0]), (np.array([0]), np.array([1]))), shape=(n, n))
+    above = np.array([[0, 2e-8], [0, 0]])
+    # BSR with scipy's automatic 2x2 blocks: the path 1-2-0-3 (edges 0-2, 0-3, 1-2); the zero entries (1,3)/(3,1) lie
+    # inside stored blocks, so the code sees the extra edge 1-3 and d(1,3) = 1 instead of 3
+    P = np.array([[0, 0, 1, 1], [0, 0, 1, 0], [1, 1, 0, 0], [1, 0, 0, 0]])
+    bsr_auto = sps.bsr_matrix(P)
+    seen = {"dense 1e-9": run_dist(tiny_dense), "csr 1e-9": run_dist(tiny_csr), "csr stored 0": run_dist(stored0),
+            "dense 2e-8": run_dist(above), "bsr auto blocks %s" % (bsr_auto.blocksize,): run_dist(bsr_auto),
+            "same entries dense": run_dist(P)}
+    edge, noedge = [[0, 1], [1, 0]], [[0]]
+    as_documented = (seen["dense 1e-9"][:2] == ("ok", noedge) and seen["dense 1e-9"][3] is True
+                     and seen["csr 1e-9"][:2] == ("ok", edge) and seen["csr stored 0"][:2] == ("ok", edge)
+                     and seen["dense 2e-8"][:2] == ("ok", edge))
+    bsr_differs = bsr_auto.blocksize != (1, 1) and seen["bsr auto blocks %s" % (bsr_auto.blocksize,)] != seen["same entries dense"]
+    ctx.count("documented_limit:bsr_block_zeros_%s" % ("become_edges" if bsr_differs else "are_ignored"))
+    ctx.case({"op": "documented_limit", "entries": tiny_dense.tolist()}, nontrivial=False)
+    ctx.test("documented_limit_dense_tolerance_and_stored_zero_as_described", as_documented)
+    ctx.count("documented_limit:%s" % ("as_described" if as_documented else "scipy_behaviour_changed"))
+    ctx.extra["documented_limit_scipy_reader"] = {k: short(canon_dist(v), 120) for k, v in seen.items()}
+
+
+def relabel_sym(r, U):
+    n = len(U)
+    p = list(range(n))
+    r.shuffle(p)
+    return [[1 if (U[p[a]][p[b]] or U[p[b]][p[a]]) else 0 for b in range(n)] for a in range(n)]
+
+
+def stream_big_pairs(ctx):
+    """[T] graphs with >= 128 vertices (int8 / int16 distance matrices, the find_lb index arithmetic of /repo a42e80a)
+    through the PUBLIC gromov_hausdorff with a small mapping_sample_size_order: no exception, lb <= ub, both
+    non-negative multiples of 1/2, and lb = 0 for isomorphic (relabelled) pairs"""
+    r = ctx.rng
+    P128, S129, C128, C129 = g_path(128), g_star(129), g_cycle(128), g_cycle(129)
+    jobs = [("path128~relabelled", P128, relabel_sym(r, P128), True), ("star129~relabelled", S129, relabel_sym(r, S129), True),
+            ("cycle128|cycle129", C128, C129, False), ("path129|star128", g_path(129), g_star(128), False)]
+    if ctx.thorough:
+        jobs += [("cycle129~relabelled", C129, relabel_sym(r, C129), True), ("path129~relabelled", g_path(129), relabel_sym(r, g_path(129)), True)]
+    f = gh().gromov_hausdorff
+    for name, U1, U2, iso in jobs:
+        seed = r.randrange(2 ** 31)
+        order = r.choice([[0.0, 0.0], [0.25, 0.0]])
+        cont = r.choice(["int", "csr", "list"])
+        case = {"op": "bigpair", "name": name, "seed": seed, "order": order, "container": cont, "entries": [U1, U2], "isomorphic": iso}
+        ok, why = big_pair_ok(case)
+        ctx.case({"op": "bigpair", "name": name, "seed": seed, "order": order, "container": cont}, nontrivial=True, sample_every=10 ** 9)
+        ctx.count("bigpair:" + name)
+        ctx.test("big_graphs_no_raise_lb_le_ub_iso_zero", ok)
+        if not ok:
+            ctx.violation("gromov_hausdorff on graphs with >= 128 vertices (%s): %s" % (name, why),
+                          {k: v for k, v in case.items()}, law="bigpair")
+            if stop(ctx):
+                return
+
+
+def big_pair_ok(c):
+    U1, U2 = c["entries"]
+    np.random.seed(c["seed"])
+    with np.errstate(all="ignore"):
+        st, v, w = call(gh().gromov_hausdorff, pack(U1, c["container"]), pack(U2, c["container"]),
+                        mapping_sample_size_order=np.array(c["order"]))
+    if st == "err":
+        return False, "raised " + str(v)
+    lb, ub = float(v[0]), float(v[1])
+    if "UserWarning" in w:
+        return False, "warned about a disconnected graph although both graphs are connected"
+    if not (0 <= lb <= ub) or (2 * lb) % 1 != 0 or (2 * ub) % 1 != 0:
+        return False, "bounds (%s, %s) are not 0 <= lb <= ub in multiples of 1/2" % (lb, ub)
+    if c["isomorphic"] and lb != 0:
+        return False, "lower bound %s for isomorphic graphs" % lb
+    return True, "(%s, %s)" % (lb, ub)
+
+
 def small_space(E):
     sp, disc, largest = o_space(E)
     return sp, disc, largest
@@ -633,14 +772,22 @@ def small_space(E):
 
 def check_brackets(ctx, E1, E2, lb, ub, case, limit):
     """[T] lb <= mGH <= ub against exhaustive enumeration when both (fallback) spaces are small.
-    With a tie between non-isometric largest components the statement leaves the choice to the labelling:
-    the oracle uses the first one, like the model."""
-    s1, _, _ = o_space(E1)
-    s2, _, _ = o_space(E2)
+    With a tie between non-isometric largest components the statement leaves the choice open: the bounds are
+    accepted if they bracket the distance for SOME choice of largest components (the first ones, like the model,
+    are tried first)."""
+    S1, S2 = o_spaces(E1), o_spaces(E2)
+    s1, s2 = S1[0], S2[0]
     if len(s1) > limit or len(s2) > limit or len(s1) ** len(s2) > 50000 or len(s2) ** len(s1) > 50000:
         return True
     d = o_mgh(s1, s2)
     ok = lb <= d <= ub
+    if not ok and len(S1) * len(S2) > 1:
+        for a in S1:
+            for b in S2:
+                if not ok and (a is not s1 or b is not s2):
+                    ok = lb <= o_mgh(a, b) <= ub
+        if ok:
+            ctx.count("brackets_valid_for_another_tied_component")
     ctx.test("brackets_valid", ok)
     if not ok:
         ctx.violation("bounds do not bracket the mGH distance: lb=%s ub=%s exhaustive mGH=%s" % (lb, ub, d),
@@ -864,7 +1011,8 @@ def run(ctx):
     for v in summ.values():      # the anchored functions are lines 116-265 (dispatch, make_distance_matrix, int type)
         v["missed_lines_in_anchored_range_116_265"] = [x for x in v.pop("missed_lines") if 116 <= x <= 265]
     ctx.extra["line_coverage_probe"] = summ
-    for stream in (stream_dist, stream_inttype, stream_pairs, stream_collections):
+    ctx.extra["core_theorems"] = CORE_THEOREMS
+    for stream in (stream_dist, stream_inttype, stream_limits, stream_big_pairs, stream_pairs, stream_collections):
         stream(ctx)
         if stop(ctx):
             return
@@ -897,7 +1045,9 @@ def replay(ctx, rep):
         ok = why is None
         if ok and "other_entries" in c:
             other = run_dist(pack(c["other_entries"], c.get("other_container", "list")))
-            if c.get("perm"):
+            if c.get("perm") and other[0] == "ok" and other[3]:
+                ok = relabelled_block_ok(c["other_entries"], c["perm"], canon_dist(code))[0]
+            elif c.get("perm"):
                 p = c["perm"]
                 ok = code[0] == "ok" and other[0] == "ok" and \
                     code[1] == [[other[1][p[a]][p[b]] for b in range(len(p))] for a in range(len(p))]
@@ -905,6 +1055,10 @@ def replay(ctx, rep):
                 ok = canon_dist(other) == canon_dist(code)
             why = None if ok else "representations disagree"
         print("statement:", why or "holds")
+        return ok
+    if op == "bigpair":
+        ok, why = big_pair_ok(c)
+        print("code:", why)
         return ok
     if op == "inttype":
         v = c["value"]
@@ -937,23 +1091,41 @@ def replay(ctx, rep):
 
 
 MANIFEST = {
-    "text": "Proof: 30 Lean theorems (core Lean, no Mathlib needed) about the model of the representation layer of gromov_hausdorff "
+    "text": "Proof: 33 Lean theorems (22 of them core: each carries a clause of the statement; the rest are helper steps, the "
+            "labelling contract, and concrete instances such as old_fallback_not_square, tie_relabel_selects_other_component, "
+            "int_type_thresholds; core Lean, no Mathlib needed) about the model of the representation layer of gromov_hausdorff "
             "over Nat matrices, for graphs of every size: the result depends on the input only through the undirected unweighted "
             "adjacency `adjOf` (so upper-triangular, strictly upper, symmetric, re-weighted, bool/int/float and list/dense/sparse forms of "
             "one labelled graph agree; self-loops never matter); the model's level-BFS with fuel n computes exactly the shortest-walk "
             "lengths (none = no walk) and commutes with every vertex permutation; a connected graph gives the full matrix without "
             "warning and equivariantly under relabelling; a disconnected one gives - warning flag set iff disconnected - the square, "
             "finite, symmetric, zero-diagonal, positive, triangle-inequality block of shortest-walk lengths of its FIRST largest "
-            "component (labels in order of first vertex, first maximum of the counts), and no well-formed graph raises; the dtype is the "
+            "component (labels in order of first vertex, first maximum of the counts), and no well-formed graph raises; when one "
+            "component is strictly larger than all others (relabel_unique_largest; every connected graph qualifies) the relabelled "
+            "graph yields, for EVERY relabelling, the relabelled block of the same original vertices, same warning, same dtype. "
+            "THE TIE EXCEPTION: with several largest components the statement's 'its largest connected component' is not unique; "
+            "the code takes the one with the smallest vertex and a relabelling can select another, non-isometric one "
+            "(tie_relabel_selects_other_component: path+triangle) - 'under any vertex relabelling' holds up to that choice, and the "
+            "harness accepts every tied component for the property verdict. The dtype is the "
             "smallest signed width holding every entry and every difference; for every `estimate`, every N >= 2 and every RNG state the "
             "collection result is N x N, symmetric, zero-diagonal, entry (i,j) is exactly the pair result in the RNG state reached at that "
-            "point, and lower bounds do not depend on the RNG state or the format; 2*mGH <= c is invariant under relabelling (spec level); "
+            "point; `lb_deterministic` is a statement about the DISPATCH only: its hypothesis (two estimators always agree on the "
+            "lower-bound component, i.e. find_lb is a function of (DX, DY) alone) IS the statement's clause for find_lb itself, which "
+            "this property does not prove - find_lb is owned by C05 - and which is tested here on the real code ([T] lb_deterministic); "
+            "2*mGH <= c is invariant under relabelling (spec level); "
             "the pre-fix rows-only fallback is shown non-square by `decide`. The model is tied to the code on every run by exact comparison "
             "(distance matrix, warning, dtype, error kind, component labels, dispatch with the recorded estimate calls replayed into the "
             "model) on generated graphs in 15 containers x orientations x weights x relabellings.",
     "note": "Trusted: Lean kernel, axioms propext/Classical.choice/Quot.sound; the correspondence harness; scipy csgraph "
             "shortest_path/connected_components and numpy unique/argmax/mask indexing/astype as contracts (compared exactly with the model "
             "on every case). `estimate` is a parameter (its soundness is C05). [T] only: bracket validity against the exhaustive mGH oracle "
-            "(<= 6 vertices), container unpacking, warnings raised by the real code, NumPy's dtype promotion.",
+            "(<= 6 vertices; for SOME choice among tied largest components), container unpacking, warnings raised by the real code, "
+            "NumPy's dtype promotion, the pairs of 128/129-vertex graphs through the public entry point (no exception, lb <= ub, lb = 0 "
+            "for isomorphic pairs). DOCUMENTED LIMIT (one [T] case shows it on the real code): scipy's dense reader treats |x| <= 1e-8, "
+            "NaN and inf as 'no edge', while a sparse matrix counts every stored entry - even an explicit 0 - as an edge, so a dense "
+            "and a sparse container of such numbers are different graphs to the code; in particular a BSR matrix with automatic 2x2 "
+            "blocks turns the zeros inside a stored block into edges (shown for the path 1-2-0-3: d(1,3) = 1 instead of 3). The "
+            "model's input is 'non-zero = edge' and these inputs are outside it (ASSUMPTIONS); whether the BSR behaviour should be "
+            "repaired in the code (eliminate_zeros after tocsr) is reported to the maintainers of known_findings.txt.",
     "technique": "Lean 4 theorems over a hand-written model + differential correspondence with the real code",
 }
